@@ -106,6 +106,12 @@ Theorem traversal_from_dummy_reaches_bucket : forall reg dum, In (reg, dum) spli
 Proof. exact p_traversal_from_dummy_reaches_bucket. Qed.
 Print Assumptions traversal_from_dummy_reaches_bucket.
 
+(** Bucket 0 has no parent: its dummy is the key 0, strictly below every regular key (the list head). *)
+Theorem bucket0_dummy_is_least : forall reg dum, In (reg, dum) split_order_fns ->
+  dum 0 = Some 0 /\ forall h, 0 <= h < 2 ^ 64 -> exists v, reg h = Some v /\ 0 < v.
+Proof. exact p_bucket0_dummy_is_least. Qed.
+Print Assumptions bucket0_dummy_is_least.
+
 (** ** The RCU and nogc flavours are the same arithmetic (so every statement above holds for them verbatim) *)
 
 Theorem rcu_nogc_flavours_same_arithmetic :
